@@ -1,6 +1,6 @@
 """PIPE / STATE / notify rules: the per-action pipeline on the reducer thread."""
 from mirq.prov import subterms, term_str, strip_wrap, strip_clone, mk_phi
-from mirq.interp import Interp
+from mirq.interp import Interp, unclone_all
 from mirq.report import short, AnchorMissing
 from mirq.program import Site
 
@@ -50,7 +50,8 @@ class Pipe:
     def __init__(self, ctx):
         self.ctx = ctx
         self.G = ctx.rgraph()
-        self.I = Interp(ctx.prog)
+        radt = ctx.A.receiver_adt["path"]
+        self.I = Interp(ctx.prog, opaque=lambda b: (b.j.get("impl_adt") or "") == radt)
         G = self.G
         ev = {}
         for k, s, lab in ctx.revents(lambda l: True):
@@ -339,7 +340,7 @@ def pi4_reducer_threading(ctx, rep):
     # INIT: the chain input is the state read in this pass
     if inits:
         it = P.I.in_context(k[0], body, next(iter(inits)))
-        rep.check(init is not None and strip_clone(it) == strip_clone(init) and it[0] == "clone", R, "chain-input-is-current-state:" + key, s.where,
+        rep.check(init is not None and unclone_all(it) == unclone_all(init) and it[0] == "clone", R, "chain-input-is-current-state:" + key, s.where,
                   "chain input is a clone of the state cell read in this pass (%s)" % term_str(it), "chain input is %s, not the current state" % term_str(it))
 
 
@@ -380,7 +381,8 @@ def _borrowed_local(body, bp, bb, op):
 
 
 def chain_result_term(ctx):
-    """canonical chain result in the reducer closure's context: phi{Dispatch.0, Keep.0, INIT}"""
+    """canonical chain result in the reducer closure's context: phi{Dispatch.0, Keep.0, INIT}
+    where INIT is the clone of the state cell read in this pass"""
     P = _pipe(ctx)
     cc = P.canon_chain()
     if cc is None:
@@ -408,7 +410,7 @@ def pi5_write_back(ctx, rep):
         v = bp.rvalue_term(s["rv"], nd.bb, si)
         v = P.I.in_context(k[0], body, v)
         n += 1
-        rep.check(strip_clone(v) == C, R, "written-value-is-chain-result:" + short(body.path), ctx.where(body, nd.bb, si),
+        rep.check(unclone_all(v) == unclone_all(C), R, "written-value-is-chain-result:" + short(body.path), ctx.where(body, nd.bb, si),
                   "state cell := %s" % term_str(v), "state cell := %s, which is not the chain's result %s" % (term_str(v), term_str(C)))
     rep.floor(R, "write-back sites", n, 1)
     W = set(P.nodes("WRITE_STATE"))
@@ -656,7 +658,7 @@ def n3_payload(ctx, rep):
     for k, s in P.ev.get("NOTIFY", []):
         t = P.I.in_context(k[0], s.body, ctx.prog.bp(s.body).arg_term(s.bb, 1))
         base = strip_clone(t)
-        good = base == C
+        good = unclone_all(t) == unclone_all(C)
         if not good and _is_state_cell(ctx, base) and W:
             # cell equivalence: a read of the cell after the write-back of this pass
             good = P.G.every_path_hits(P.recv, [k], W)
@@ -680,7 +682,7 @@ def mw1_hook_state_args(ctx, rep):
         for k, s in P.ev.get(lab, []):
             t = P.I.in_context(k[0], s.body, ctx.prog.bp(s.body).arg_term(s.bb, 2))
             base = strip_clone(t)
-            good = base == strip_clone(w)
+            good = unclone_all(t) == unclone_all(w)
             if not good and _is_state_cell(ctx, base) and W and lab != "HOOK:before_reduce":
                 good = P.G.every_path_hits(P.recv, [k], W)
             n += 1
